@@ -33,11 +33,13 @@ P_C09_Select       == Supported => Select(l, named, isVariant)
 P_C09_NoPanic      == NoPanic(l, named)
 P_C09_Bound        == Supported => BoundRight(l, named)
 P_C09_IgnoreStable == IgnoreStable(l, named)
+P_Ext_Provide      == Supported => Provide(l, named, isVariant)
 \* the rules never pick an ignored field, nor one marked not(source)
 P_C09_Sane == LET s == DocSource(l, named) IN
               s[1] = "field" => s[2] \in Enabled(l) /\ SrcFlag(l[s[2]].attr) # "no"
 
 CaseRec == [l |-> l, named |-> named, isVariant |-> isVariant, doc |-> DocSource(l, named),
-            bt |-> DocBacktrace(l, named), impl |-> ImplSource(l, named, isVariant), supported |-> Supported]
+            bt |-> DocBacktrace(l, named), impl |-> ImplSource(l, named, isVariant), supported |-> Supported,
+            provide |-> DocProvide(l, named)]
 Emit == EmitCases => PrintT(<<"CASE", ToJson(CaseRec)>>)
 =============================================================================
